@@ -304,6 +304,17 @@ pub fn apply_op<K: Fam>(e: &mut Enr<K>, op: &Op, keys: &[K]) -> CallRes {
                 Err(er) => CallRes::DecodeErr(er),
             }
         }
+        Op::CloneFrom => {
+            let last = &keys[keys.len() - 1];
+            match crate::keys::fault_suspended(|| Enr::<K>::builder().seq(77).tcp4(4242).add_value("zzz", &7u8).build(last)) {
+                Ok(mut other) => {
+                    other.clone_from(&*e);
+                    *e = other;
+                    CallRes::Ok(Ret::Unit)
+                }
+                Err(er) => CallRes::DecodeErr(format!("building the clone_from target failed: {er:?}")),
+            }
+        }
         Op::Reserde => match serde_json::to_string(&*e) {
             Ok(js) => match serde_json::from_str::<Enr<K>>(&js) {
                 Ok(n) => {
